@@ -122,6 +122,28 @@ Definition c16_csv_pred (expected : list text) (observed : option (list text)) :
 Definition c16_file_pred (expected observed : list (list text)) : bool :=
   list_eqb reqb expected observed.
 
+(* ---- the wider classes (quoted values keep their edge white space) ---- *)
+(* a row: the policy type with its own format, then (format, value) columns
+   that are col_ok (Csv.v) *)
+Definition fitem_ok_q (it : fitem) : bool :=
+  match it with
+  | FRow fs pt vs =>
+    match fs with
+    | f0 :: fs' => ptype_safe pt && colfmt_ok f0 && Nat.eqb (length fs') (length vs) &&
+                   forallb (fun fv => col_ok (fst fv) (snd fv)) (combine fs' vs)
+    | [] => false
+    end
+  | FBlank ws => all_ws ws && no_nl ws
+  | FComment pre body => all_ws pre && no_nl pre && no_nl body
+  end.
+(* rules the adapters (csv_field) write losslessly *)
+Definition rule_text_safe_r (r : rule) : bool := negb (is_nil r) && forallb csv_safe_r r.
+Definition amap_text_safe_r (am : amap) : bool :=
+  forallb (fun ka => ptype_safe (fst ka) && forallb rule_text_safe_r (a_policy (snd ka))) am.
+Definition model_text_safe_r (md : model) : bool :=
+  (match assoc s_p md with Some am => amap_text_safe_r am | None => true end) &&
+  (match assoc s_g md with Some am => amap_text_safe_r am | None => true end).
+
 (* ------------------------------------------------------------------ *)
 (* B. INI / model text                                                  *)
 (* ------------------------------------------------------------------ *)
